@@ -123,7 +123,7 @@ def rule_sm_red(ctx, prog, chk):
         sites = set()
         for el in fn.all_elements():
             for c in ir.calls_in(fn, el.e):
-                if c[1] in FIXED_RECODERS:
+                if c[1] in FIXED_RECODERS or c[1] == "bn_rec_glv":
                     sites.add(el.id)
         if not sites:
             continue
@@ -137,6 +137,21 @@ def rule_sm_red(ctx, prog, chk):
             if s is None or s is engines.UNIVERSE:
                 continue
             for c in ir.calls_in(fn, nd.el.e):
+                if c[1] == "bn_rec_glv" and len(c[2]) >= 3:
+                    # the decomposition is defined for scalars below the order: a longer one yields sub-scalars longer
+                    # than half the order, which every consumer sizes its tables and loops for
+                    k = ordinal.get(c[1], 0)
+                    ordinal[c[1]] = k + 1
+                    n += 1
+                    sk = key(fn, c[2][2])
+                    bounded = any(a[0] == "cmp" and a[1] == c08.bits_key(sk) and a[2] in ("<=", "<", "==") for a in s) or ("ev", "libparam", sk) in s
+                    if not bounded and sk[0] == "v" and fn.vars[sk[1]]["k"] == "p" and fn.static:
+                        bounded = callers_reduce(ctx, prog, fn, sk[1])
+                    if bounded:
+                        chk.ok("SM-RED", fn, "bn_rec_glv#%d" % k, "scalar `%s` was reduced modulo the group order before the decomposition" % fn.fmt(c[2][2]), line=nd.line())
+                    else:
+                        chk.fail("SM-RED", fn, "bn_rec_glv#%d" % k, "scalar `%s` reaches the GLV decomposition without having been reduced modulo the group order by bn_mod on every path: for scalars of two group orders or more the sub-scalars exceed what the tables and loops are sized for" % fn.fmt(c[2][2]), line=nd.line())
+                    continue
                 if c[1] not in FIXED_RECODERS:
                     continue
                 buf = ir.peel(fn, c[2][0])
